@@ -272,6 +272,11 @@ pub fn ls(cache: &Path) -> impl Iterator<Item = Result<Metadata>> {
                     format!("Error getting bucket entries from {}", owned_path.display())
                 })?
                 .into_iter()
+                // A record whose integrity does not parse is ignored, exactly as `find` does.
+                .filter(|se| match &se.integrity {
+                    Some(i) => i.parse::<Integrity>().is_ok(),
+                    None => true,
+                })
                 .rev()
                 .collect::<HashSet<SerializableMetadata>>()
                 .into_iter()
@@ -279,7 +284,7 @@ pub fn ls(cache: &Path) -> impl Iterator<Item = Result<Metadata>> {
                     if let Some(i) = se.integrity {
                         Some(Metadata {
                             key: se.key,
-                            integrity: i.parse().unwrap(),
+                            integrity: i.parse().ok()?,
                             time: se.time,
                             size: se.size,
                             metadata: se.metadata,
